@@ -17,7 +17,10 @@ CLAIMED = {
         "range-checked (error() exit) before the address arithmetic of get_offset/get_index; that arithmetic is a zero-based "
         "mixed-radix layout in the order the storage-order enumerator names (so in-range bins never share a position, for every "
         "geometry); all seeks/buffer copies use that one address function; every stream writer flushes before returning; "
-        "read_data/write_data results are tested. Value round trips, byte order, number-type conversion and header values are NOT decided.",
+        "read_data/write_data results are tested; per-segment header lists are written in the stream's segment order; every key the "
+        "projection-data header writer emits is registered by the reader classes with the same vectorisation; every read path of "
+        "ProjDataFromStream applies scale_factor exactly once (raw reads are scaled before every return, data from another getter is not "
+        "scaled again). Value round trips, byte order, number-type conversion and header values are NOT decided.",
         technique="static analysis: must-facts dataflow over clang CFG (bounds), symbolic layout algebra on the address expression, "
         "must-pass-through (flush), resolved-callee provenance",
     ),
